@@ -47,6 +47,12 @@ class Unit:
         self.dims = _clean(dims or {})
         self._irr = _clean(irr or {})  # irrational sqrt factors: {Fraction c: power} meaning sqrt(c)**power
 
+    def __getattr__(self, name):
+        # (only reached for names the model does not have)
+        if name.startswith('_'):
+            raise AttributeError(name)
+        raise Unsupported(f'Unit.{name} is not in the scipp model')
+
     # -- algebra
     def __mul__(a, b):
         if isinstance(b, Unit):
